@@ -73,11 +73,13 @@ package processors
 // ---- every field is narrowed, independently of the others (the per-field sentence of C08) -----------------------
 
 //@ func (*dependencyFurtherMatchingPostProcessors).PostProcessProperties
+//@ implements container.InstantiationAwareComponentPostProcessor
+//@ ghost at return: Failed = old(Failed) || result1 != nil
 //@ property C08 C09 C07
 //@ requires [properties-wellformed] forall(k, int, implies(0 <= k && k < len(properties), PointOK(properties[k])), properties[k])
 //@ requires [properties-distinct] forall(j, int, forall(k, int, implies(0 <= j && j < k && k < len(properties), properties[j] != properties[k])))
 //@ requires [candidates-wellformed] forall(k, int, forall(i, int, implies(0 <= k && k < len(properties) && 0 <= i && i < len(properties[k].Injects) && properties[k].Injects[i] != nil, properties[k].Injects[i].Base != nil && properties[k].Injects[i].Type != nil)))
-//@ assigns any(properties[0].Injects), FilterPos, FilterSrc
+//@ assigns any(properties[0].Injects), FilterPos, FilterSrc, Failed
 //@ ensures [every-component-property-narrowed] implies(result1 == nil, forall(k, int, implies(0 <= k && k < len(properties) && properties[k].PropertyType == component_definition.PropertyTypeComponent, Narrowed(properties[k], old(properties[k].Injects), properties[k].Injects) || (NoneInQ(properties[k], old(properties[k].Injects)) && !properties[k].IsRequired() && len(properties[k].Injects) == 0)), properties[k]))
 //@ ensures [injects-nil-free] implies(result1 == nil, forall(k, int, implies(0 <= k && k < len(properties) && properties[k].PropertyType == component_definition.PropertyTypeComponent, NilFree(properties[k].Injects)), properties[k]))
 //@ ensures [required-none-errors] implies(exists(k, int, 0 <= k && k < len(properties) && properties[k].PropertyType == component_definition.PropertyTypeComponent && properties[k].IsRequired() && NoneInQ(properties[k], old(properties[k].Injects))), result1 != nil)
@@ -125,12 +127,14 @@ package processors
 //@ ghost var PosSnap map[int]map[string]int
 
 //@ func (*dependencyAwarePostProcessors).PostProcessProperties
+//@ implements container.InstantiationAwareComponentPostProcessor
+//@ ghost at return: Failed = old(Failed) || result1 != nil
 //@ property C06 C07 C09
 //@ ghost after call GetMetas: PosSnap = store(PosSnap, _idx, MetasPos)
 //@ requires [registry-set] d.Registry != nil && DefInv(d.Registry)
 //@ requires [properties-wellformed] forall(k, int, implies(0 <= k && k < len(properties), PointOK(properties[k])), properties[k])
 //@ requires [properties-distinct] forall(j, int, forall(k, int, implies(0 <= j && j < k && k < len(properties), properties[j] != properties[k])))
-//@ assigns anyfield(component_definition.Property, Injects), MetasPos, PosSnap
+//@ assigns anyfield(component_definition.Property, Injects), MetasPos, PosSnap, Failed
 //@ ensures [no-error] result1 == nil
 //@ ensures [by-name-candidate] forall(k, int, implies(0 <= k && k < len(properties) && ByName(properties[k]), len(properties[k].Injects) == len(old(properties[k].Injects)) + 1 && properties[k].Injects[len(properties[k].Injects) - 1] == ite(d.Registry.DefDom[properties[k].TagVal] && RAssignable(RTypeOf(d.Registry.Def[properties[k].TagVal].Value), properties[k].Type), d.Registry.Def[properties[k].TagVal], nil)), properties[k])
 //@ ensures [by-type-sound] forall(k, int, forall(i, int, implies(0 <= k && k < len(properties) && (ByPtrType(properties[k]) || ByIfaceType(properties[k])) && len(old(properties[k].Injects)) <= i && i < len(properties[k].Injects), MetaOK(properties[k].Injects[i]) && d.Registry.DefDom[properties[k].Injects[i].Name()] && d.Registry.Def[properties[k].Injects[i].Name()] == properties[k].Injects[i] && ite(ByPtrType(properties[k]), RTypeOf(properties[k].Injects[i].Value) == TargetT(properties[k]), RImplements(RTypeOf(properties[k].Injects[i].Value), TargetT(properties[k]))))))
@@ -154,11 +158,13 @@ package processors
 //@ spec func FuncByIface(p *component_definition.Property) bool = FuncPoint(p) && !FuncByPtr(p) && (KindOf(p) == 20 || (KindOf(p) == 23 && RElemType(p.Type).Kind() == 20))
 
 //@ func (*dependencyFunctionAwarePostProcessors).PostProcessProperties
+//@ implements container.InstantiationAwareComponentPostProcessor
+//@ ghost at return: Failed = old(Failed) || result1 != nil
 //@ property C06 C09
 //@ requires [registry-set] d.Registry != nil && DefInv(d.Registry)
 //@ requires [properties-wellformed] forall(k, int, implies(0 <= k && k < len(properties), PointOK(properties[k]) && properties[k].args != nil), properties[k])
 //@ requires [properties-distinct] forall(j, int, forall(k, int, implies(0 <= j && j < k && k < len(properties), properties[j] != properties[k])))
-//@ assigns anyfield(component_definition.Property, Injects), MetasPos
+//@ assigns anyfield(component_definition.Property, Injects), MetasPos, Failed
 //@ ensures [no-error] result1 == nil
 //@ ensures [func-candidates-sound] forall(k, int, forall(i, int, implies(0 <= k && k < len(properties) && (FuncByPtr(properties[k]) || FuncByIface(properties[k])) && len(old(properties[k].Injects)) <= i && i < len(properties[k].Injects), MetaOK(properties[k].Injects[i]) && d.Registry.DefDom[properties[k].Injects[i].Name()] && d.Registry.Def[properties[k].Injects[i].Name()] == properties[k].Injects[i] && RHasMethod(RTypeOf(properties[k].Injects[i].Value), properties[k].TagVal) && ite(FuncByPtr(properties[k]), RTypeOf(properties[k].Injects[i].Value) == TargetT(properties[k]), RImplements(RTypeOf(properties[k].Injects[i].Value), TargetT(properties[k]))))))
 //@ ensures [earlier-candidates-kept] forall(k, int, forall(i, int, implies(0 <= k && k < len(properties) && 0 <= i && i < len(old(properties[k].Injects)), len(properties[k].Injects) >= len(old(properties[k].Injects)) && properties[k].Injects[i] == oldat(old(properties[k].Injects), i))))
@@ -177,9 +183,11 @@ package processors
 //@ spec func PrefixPoint(p *component_definition.Property) bool = p.Tag == definition.PrefixTag
 
 //@ func (*valueAwarePostProcessors).PostProcessProperties
+//@ implements container.InstantiationAwareComponentPostProcessor
+//@ ghost at return: Failed = old(Failed) || result1 != nil
 //@ property C09
 //@ requires [properties-wellformed] forall(k, int, implies(0 <= k && k < len(properties), PointOK(properties[k]) && properties[k].args != nil), properties[k])
-//@ assigns RMem, RTop
+//@ assigns RMem, RTop, Failed
 //@ ensures [required-missing-errors] implies(result1 == nil, forall(k, int, implies(0 <= k && k < len(properties) && ValuePoint(properties[k]) && properties[k].TagVal == "", !properties[k].IsRequired()), properties[k]))
 //@ ensures [optional-empty-value-skipped] forall(l, int, implies(l <= old(RTop) && forall(k, int, implies(0 <= k && k < len(properties) && ValuePoint(properties[k]) && properties[k].TagVal != "", l != RLoc(properties[k].Value))), RMem[l] == old(RMem[l])))
 //@ loop 1 invariant [bounds] 0 <= _done && _done <= len(properties) && RTop >= old(RTop)
@@ -187,13 +195,53 @@ package processors
 //@ loop 1 invariant [only-valued-points-written] forall(l, int, implies(l <= old(RTop) && forall(k, int, implies(0 <= k && k < _done && ValuePoint(properties[k]) && properties[k].TagVal != "", l != RLoc(properties[k].Value))), RMem[l] == old(RMem[l])))
 
 //@ func (*propertiesAwarePostProcessors).PostProcessProperties
+//@ implements container.InstantiationAwareComponentPostProcessor
+//@ ghost at return: Failed = old(Failed) || result1 != nil
 //@ property C09
 //@ requires [configure-set] c.Configure != nil
 //@ requires [properties-wellformed] forall(k, int, implies(0 <= k && k < len(properties), PointOK(properties[k]) && properties[k].args != nil && properties[k].Configurations != nil), properties[k])
 //@ requires [config-maps-separate] forall(k, int, forall(j, int, implies(0 <= k && k < len(properties) && 0 <= j && j < len(properties), properties[k].args != properties[j].Configurations), properties[j]), properties[k])
-//@ assigns RMem, RTop, any(mapcontents(properties[0].Configurations))
+//@ assigns RMem, RTop, any(mapcontents(properties[0].Configurations)), Failed
 //@ ensures [required-missing-errors] implies(result1 == nil, forall(k, int, implies(0 <= k && k < len(properties) && PrefixPoint(properties[k]) && CfgGet(properties[k].TagVal) == nil, !properties[k].IsRequired()), properties[k]))
 //@ ensures [optional-missing-config-skipped] forall(l, int, implies(l <= old(RTop) && forall(k, int, implies(0 <= k && k < len(properties) && PrefixPoint(properties[k]) && CfgGet(properties[k].TagVal) != nil, l != RLoc(properties[k].Value))), RMem[l] == old(RMem[l])))
 //@ loop 1 invariant [bounds] 0 <= _done && _done <= len(properties) && RTop >= old(RTop)
 //@ loop 1 invariant [required-present-so-far] forall(k, int, implies(0 <= k && k < _done && PrefixPoint(properties[k]) && CfgGet(properties[k].TagVal) == nil, !properties[k].IsRequired()), properties[k])
 //@ loop 1 invariant [only-configured-points-written] forall(l, int, implies(l <= old(RTop) && forall(k, int, implies(0 <= k && k < _done && PrefixPoint(properties[k]) && CfgGet(properties[k].TagVal) != nil, l != RLoc(properties[k].Value))), RMem[l] == old(RMem[l])))
+
+// ---- constructors of the built-in processors (C09, C18): each returns a usable, freshly allocated processor -----------
+//@ func NewLoggerAwarePostProcessor
+//@ property C09
+//@ assigns nothing
+//@ ensures [built] result != nil
+//@ func NewConfigQuoteAwarePostProcessors
+//@ property C09 C16
+//@ assigns nothing
+//@ ensures [built] result != nil
+//@ func NewExpressionTagAwarePostProcessors
+//@ property C09 C18
+//@ assigns nothing
+//@ ensures [built] result != nil
+//@ func NewPropertiesAwarePostProcessors
+//@ property C09
+//@ assigns nothing
+//@ ensures [built] result != nil
+//@ func NewValueAwarePostProcessors
+//@ property C09
+//@ assigns nothing
+//@ ensures [built] result != nil
+//@ func NewValidateAwarePostProcessors
+//@ property C09 C18
+//@ assigns nothing
+//@ ensures [built] result != nil
+//@ func NewDependencyAwarePostProcessors
+//@ property C09
+//@ assigns nothing
+//@ ensures [built] result != nil
+//@ func NewDependencyFurtherMatchingProcessors
+//@ property C09
+//@ assigns nothing
+//@ ensures [built] result != nil
+//@ func NewDependencyFunctionAwarePostProcessors
+//@ property C09
+//@ assigns nothing
+//@ ensures [built] result != nil
